@@ -38,6 +38,9 @@ def cases(tier, seed):
     yield {"k": "crc1"}
     for gen in (4, 5):
         yield {"k": "corner", "gen": gen}
+        for i in range(2 if tier == "quick" else 40):
+            yield {"k": "session", "gen": gen, "seed": rnd.randrange(1 << 30),
+                   "rounds": 24 if i == 0 else rnd.randint(10, 60)}
     for b in range(256):
         yield {"k": "crc2", "b0": b}
     yield {"k": "crc_random", "seed": rnd.randrange(1 << 30),
@@ -491,7 +494,74 @@ def run_corner(case):
             "sample": {"gen": gen, "corner_frames": len(corner_frames(gen))}}
 
 
+def run_session(case):
+    """ONE open socket, many damaged frames over its life-time (each between intact ones, with
+    idle time): after every one of them the link comes back and the next intact frame is
+    delivered - the twentieth time as the first."""
+    import asyncio
+    gen = case["gen"]
+    rnd = random.Random(case["seed"])
+    cat = F.catalogue(gen)
+    kinds = sorted(k for k in cat if not k.startswith("unknown"))
+    viol, obs, out = [], {}, {"rounds": 0}
+
+    async def main(loop, net, log):
+        w = SockWorld(gen, loop, net, log)
+        await w.open()
+        for i in range(case["rounds"]):
+            c = net.current()
+            if c is None:
+                out["fail"] = ("no-connection", i)
+                return
+            raw = cat[rnd.choice(kinds)]
+            lo, hi = F.covered_span(gen, raw)
+            bad = bytearray(raw)
+            # (not in the two length bytes: a longer announced length just makes the client
+            # wait for more bytes - the probing cases deal with that)
+            while True:
+                bit = rnd.randrange(lo * 8, hi * 8)
+                if bit // 8 not in (lo + 4, lo + 5):
+                    break
+            bad[bit // 8] ^= 0x80 >> (bit % 8)
+            n0 = len(w.msgs)
+            c.transport.peer_data(F.probe_frame(gen, i))
+            await quiesce(loop)
+            if len(w.msgs) != n0 + 1 or net.current() is not c:
+                out["fail"] = ("intact-frame-not-delivered", i)
+                return
+            c.transport.peer_data(bytes(bad))
+            await quiesce(loop)
+            if len(w.msgs) != n0 + 1:
+                out["fail"] = ("damaged-frame-delivered", i)
+                return
+            await asyncio.sleep(rnd.choice([2.5, 2.5, 40.0, 301.0]))
+            await quiesce(loop)
+            c2 = net.current()
+            if c2 is None or c2 is c or len(net.open_conns()) != 1:
+                out["fail"] = ("not-reconnected-after-damaged-frame", i)
+                return
+            out["rounds"] = i + 1
+        await w.close()
+
+    _, log, st = H.run(main)
+    if st != "ok":
+        viol.append({"mechanism": "socket-scenario-hang", "detail": {"status": st}})
+    elif "fail" in out:
+        what, i = out["fail"]
+        mech = {"not-reconnected-after-damaged-frame": "no-reset-after-damaged-frame",
+                "no-connection": "no-reset-after-damaged-frame",
+                "damaged-frame-delivered": "damaged-frame-delivered",
+                "intact-frame-not-delivered": "intact-frame-after-reconnect-not-delivered"}[what]
+        viol.append({"mechanism": mech, "detail": {"gen": gen, "round": i, "what": what,
+                                                   "session": True}})
+    obs["damaged_frames_in_one_session"] = out["rounds"]
+    return {"violations": viol, "evals": case["rounds"], "decided": out["rounds"],
+            "distinct": out["rounds"], "obs": obs, "sample": {"gen": gen, "session": True}}
+
+
 def run_case(case):
+    if case["k"] == "session":
+        return run_session(case)
     if case["k"] == "corner":
         return run_corner(case)
     if case["k"].startswith("crc"):
